@@ -51,6 +51,7 @@ func (t *AbsCaptureTimeExtension) Unmarshal(rawData []byte) error {
 		return errTooSmall
 	}
 	t.Timestamp = binary.BigEndian.Uint64(rawData[0:8])
+	t.EstimatedCaptureClockOffset = nil
 	if len(rawData) >= absCaptureTimeExtendedExtensionSize {
 		offset := int64(binary.BigEndian.Uint64(rawData[8:16])) // nolint: gosec // G115 false positive
 		t.EstimatedCaptureClockOffset = &offset
